@@ -239,6 +239,17 @@ func checkC05(c *Ctx) {
 				case pv:
 					bad = "parser.Evaluate returned true"
 				}
+				if bad == "" {
+					// the rejection must not wear off: Reset and repeated calls on the same evaluator
+					if ev, err, esc := newEvaluator(x.s); esc == "" && err == nil && ev != nil {
+						first := observeProcess(ev, m)
+						func() { defer func() { recover() }(); ev.Reset() }()
+						second := observeProcess(ev, m)
+						if first.V || first.E == "-" || second.V || second.E == "-" {
+							bad = fmt.Sprintf("on one evaluator: Process -> (%v, err=%s); Reset(); Process -> (%v, err=%s)", first.V, first.E, second.V, second.E)
+						}
+					}
+				}
 				if bad != "" {
 					c.violate(Violation{What: "a text that is not a sentence of the grammar was evaluated", Rule: x.s, RuleHex: hx(x.s), Object: o.Pretty(), ObjProto: o.String(),
 						Demand: "non-nil error and verdict false from rules.Evaluate and NewEvaluator+Process, false from parser.Evaluate", Go: bad, Model: ans[i], Extra: map[string]string{"family": x.fam}})
@@ -318,9 +329,55 @@ func wrapVariant(r *RNG, n *Node, p int) *Node {
 	return cp
 }
 
+// single comparisons with values near the literal, canonical spelling against respelled variants: a fast path for one
+// exact spelling shows here
+func (c *Ctx) c15LeafStream(n int) {
+	for i := 0; i < n && !c.full(); i++ {
+		lf := genLeaf(c.R, 2)
+		if lf.T == NCmp && c.R.Chance(1, 2) {
+			lf.Lit = genLit(c.R, "str")
+			lf.Op = 13 + c.R.Intn(2)
+		}
+		idc := 0
+		obj := avObj()
+		cur := obj
+		for j := 0; j < len(lf.Path)-1; j++ {
+			nx := avObj()
+			cur.Set(lf.Path[j], nx)
+			cur = nx
+		}
+		if !c.R.Chance(1, 10) {
+			cur.Set(lf.Path[len(lf.Path)-1], nearValue(c.R, lf, &idc))
+		}
+		canon := c.style(true).Render(lf)
+		m := obj.GoMap()
+		base := evalFresh(canon, m)
+		for k := 0; k < 4; k++ {
+			var vt *Node = lf
+			if k >= 2 {
+				vt = wrapVariant(c.R, lf, 50)
+			}
+			vs := c.style(false).Render(vt)
+			c.Res.Evaluations++
+			c.count("leaf_respelling")
+			if vs == canon {
+				continue
+			}
+			c.nontrivial(canon, vs, obj.String())
+			got := evalFresh(vs, m)
+			if got.Line() != base.Line() {
+				c.violate(Violation{What: "a respelled variant of a rule has a different outcome", Rule: vs, RuleHex: hx(vs), Object: obj.Pretty(), ObjProto: obj.String(),
+					Demand: "the outcome of the canonical spelling " + fmt.Sprintf("%q", canon) + ": " + base.Line(), Go: got.Line() + " " + got.ErrText, Extra: map[string]string{"canonical": canon}})
+				break
+			}
+		}
+	}
+}
+
 func checkC15(c *Ctx) {
 	c.Res.Rule = "random well-formed rules (1-10 comparisons), each rendered canonically and in 6 respelled variants (every alternative spelling from the extracted grammar, optional blanks, newlines after blanks, blanks after commas, redundant parentheses around random sub-rules) and evaluated on 3 objects; non-trivial = distinct (rule, variant) whose text differs from the canonical text"
 	n := c.budget(2000, 120000)
+	c.c15LeafStream(n * 4)
 	for i := 0; i < n && !c.full(); i++ {
 		t := genTree(c.R, 1+c.R.Intn(10), 3, nil)
 		canon := c.style(true).Render(t)
